@@ -126,6 +126,10 @@ SHORT = {
         "def f(k, v):\n    def g():\n        return k + v\n    xs = [k for k in range(3)]\n    ys = {v: k for v in xs}\n    return (k, v, xs, ys, g())\n"
         "class C:\n    k = 5\n    sq = [k for k in range(2)]\n    after = k\n    def m(self, n=k):\n        return n\nprint(f(10, 20), C.after, C().m())\n"
     ),
+    "loops_top_and_in_def": (
+        "n = 0\nwhile n < 2:\n    n += 1\nimport os\ndef f(k):\n    while k:\n        k -= 1\n        if k == 1:\n            break\n    return k\n"
+        "def g(xs):\n    for x in xs:\n        if x:\n            break\n    from os import sep\n    return sep\nfor i in range(2):\n    if i:\n        break\nprint(f(3), g([0, 1]), n)\n"
+    ),
     "global_decl": "g = 0\ndef f():\n    global g\n    g += 1\n    return g\nf()\nprint(g)\n",
     # --- classes -------------------------------------------------------------------
     "class_super": (
@@ -508,3 +512,37 @@ def variant_of(src: str, rng: random.Random) -> str:
     except (SyntaxError, ValueError, RecursionError):
         return src
     return cand
+
+
+def deletion_variants(src: str, limit: int = 10) -> list:
+    """Programs obtained by deleting ONE top-level statement (those that still compile), at most
+    `limit` of them, evenly spread.  (p, p-minus-a-statement) share every other definition verbatim:
+    the pairs defeat memo tables keyed by the text / AST dump of a function or class."""
+    try:
+        tree = ast.parse(src)
+    except (SyntaxError, ValueError, RecursionError):
+        return []
+    lines = src.split("\n")
+    body = tree.body
+    if len(body) < 2:
+        return []
+    idxs = list(range(len(body)))
+    if len(idxs) > limit:
+        step = len(idxs) / float(limit)
+        idxs = [idxs[int(i * step)] for i in range(limit)]
+    out = []
+    for i in idxs:
+        st = body[i]
+        start = min([st.lineno] + [d.lineno for d in getattr(st, "decorator_list", [])]) - 1
+        end = st.end_lineno
+        cand = "\n".join(lines[:start] + lines[end:])
+        try:
+            with warnings.catch_warnings():
+                warnings.simplefilter("ignore")
+                compile(cand, "<del>", "exec")
+                symtable.symtable(cand, "<del>", "exec")
+        except (SyntaxError, ValueError, RecursionError):
+            continue
+        if cand.strip() and cand != src:
+            out.append(cand)
+    return out
